@@ -370,6 +370,38 @@ def run_nocancel(case, res):
             res.key("nocancel", how, running)
         finally:
             end(ctx)
+    # f fails with an exception that is not an Exception subclass (what a pool stores when a task raises SystemExit ...)
+    class Stop(BaseException):
+        pass
+    for wrapper in ("proxy", "nocancel"):
+        for when in ("later", "before"):
+            begin("rt")
+            ctx = Ctx()
+            try:
+                g = SpyFuture("g")
+                e = Stop("task exit")
+                if when == "before":
+                    g.set_exception(e)
+                try:
+                    w = F.f_proxy(g, timeout=2.0) if wrapper == "proxy" else F.f_nocancel(g)
+                except BaseException as ex:
+                    res.violation("wrapper-constructor-raised/%s" % type(ex).__name__, "f_%s(g) with g failed by a BaseException raised %r" % (wrapper, ex))
+                    res.execs += 1
+                    continue
+                try:
+                    if when == "later":
+                        g.set_exception(e)
+                except BaseException as ex:
+                    res.violation("exception-escaped/set_exception/%s" % type(ex).__name__,
+                                  "completing g let %r escape from the wrapper's done-callback" % (ex,))
+                res.execs += 1
+                o = outcome(w)
+                if o[0] != "exc" or o[1] is not e:
+                    res.violation("base-exception-not-mirrored/%s" % wrapper, "f_%s(g): g failed (%s) with %r, the wrapper is %s"
+                                  % (wrapper, when, e, outcome_repr(o)))
+                res.key("base-exception", wrapper, when)
+            finally:
+                end(ctx)
     # wrappers stacked on a proxy whose future fails later: the outer wrapper mirrors the failure
     for outer in ("nocancel", "proxy", "proxy+nocancel"):
         for when in ("later", "before"):
